@@ -46,6 +46,20 @@ impl Arena {
         r.fill(all);
         a
     }
+    /// Cheap variant for interpreters: constant fill, no canary bookkeeping (the interpreter
+    /// itself reports any access outside the slice).
+    pub fn new_lean(n: usize, off: usize, place: Place) -> Arena {
+        let off = off % BASE_ALIGN;
+        let (start, total) = match place {
+            Place::Tail => (off, off + n),
+            Place::Island => (PAD + off, PAD + off + n + PAD),
+        };
+        let layout = Layout::from_size_align(total.max(1), BASE_ALIGN).unwrap();
+        let ptr = unsafe { alloc(layout) };
+        assert!(!ptr.is_null());
+        unsafe { std::ptr::write_bytes(ptr, 0xA5, layout.size()) };
+        Arena { ptr, layout, start, n, place, canary_seed: 0 }
+    }
     pub fn len(&self) -> usize {
         self.n
     }
